@@ -1040,12 +1040,43 @@ def run_corpus(env, ctx, model):
         run_minimize_case(env, ctx, model, case.get("case", case), known_id=case.get("known_id"))
 
 
+MODE_F32, ENGINE_F32 = "wrap", "wrap"
+
+def section_default_precision(env, ctx, model):
+    """DEFAULT-PRECISION stream (round 6): a subprocess WITHOUT jax_enable_x64 evaluates the property itself on the real code in the
+    library's default mode (float32 / complex64 / int32, dtype arguments omitted, weakly typed Python scalars); every record
+    that is not ok is a failing input of the property (the record IS the oracle's evaluation), never a model disagreement"""
+    import os
+    import subprocess
+    import sys
+
+    envv = {k: v for k, v in os.environ.items() if k != "JAX_ENABLE_X64"}
+    p = subprocess.run([sys.executable, str(common.VERIF / "harness" / "block_f32_worker.py")], input=json.dumps({"repo": str(common.REPO), "mode": MODE_F32, "seed": ctx.seed}),
+                       capture_output=True, text=True, env=envv, timeout=900)
+    try:
+        results = json.loads(p.stdout)["results"]
+    except Exception:  # noqa: BLE001
+        # the worker died: with the code under test in the traceback it is the implementation's failure, otherwise ours
+        if str(common.REPO) in p.stderr:
+            ctx.disagree(f"{ENGINE_F32}.default-precision", {"section": "default-precision", "worker": "died"}, p.stderr[-400:], "runs",
+                         oracle=lambda c: {"default_precision_worker": "died inside the code under test", "stderr_tail": p.stderr[-600:]})
+            return
+        raise common.Infra("default-precision worker failed: " + p.stderr[-500:])
+    for r in results:
+        ctx.case({"section": "default-precision", "case": r["case"]}, ("default-precision", r["case"]))
+        ctx.count(f"default-precision:{r['case'].split('/')[0]}:{'ok' if r['ok'] else 'FAILS'}")
+        if not r["ok"]:
+            fail = {"mode": "default precision (jax_enable_x64 off)", "case": r["case"], "detail": r["detail"]}
+            ctx.disagree(f"{ENGINE_F32}.default-precision", {"section": "default-precision", "case": r["case"]}, r["detail"], "per-block jax / scipy on the flattened problem in the same mode",
+                         oracle=lambda c, fail=fail: fail)
+
+
 def correspond(ctx, model):
     import time
 
     env = Env()
     timing = {}
-    for sec in (run_corpus, section_helpers, section_helpers_boundary, section_start_dtypes, section_forwarding, section_scalar, section_jit, section_sequence, section_minimize):
+    for sec in (run_corpus, section_helpers, section_helpers_boundary, section_start_dtypes, section_default_precision, section_forwarding, section_scalar, section_jit, section_sequence, section_minimize):
         t0 = time.time()
         try:
             sec(env, ctx, model)
